@@ -230,6 +230,35 @@ def dates_part(run):
     run.validated += n
 
 
+def native_strings_part(run, tier):
+    """cross-check of the CrossHair lemma on Constant.get_string / Insert.to_value (CrossHair's model of regular expressions is not trusted: a printer
+    that escapes with a look-behind pattern made it report a value that round-trips and stop): every string of <= 4 / 5 characters over a boundary
+    alphabet (both quotes, back-slash, letter, blank, line break, percent, semicolon, dash) goes through the real printers and the real parser."""
+    import itertools
+    alphabet = ["'", '"', chr(92), 'a', ' ', chr(10), '%', ';', '-']
+    n_max = 4 if tier == 'quick' else 5
+    bad, n, known = {}, 0, 0
+    for k in range(0, n_max + 1):
+        for tup in itertools.product(alphabet, repeat=k):
+            s_ = ''.join(tup)
+            n += 1
+            for fn in (r_const, r_insert_raw):
+                rep, info, key, what = fn({'s': s_})
+                if not rep:
+                    continue
+                if key.endswith('backslash-before-quote-or-end') or not printable_string_value(s_):
+                    known += 1
+                    continue
+                bad.setdefault(key, []).append((s_, what))
+    for key, items in sorted(bad.items()):
+        items.sort(key=lambda x: len(x[0]))
+        run.counterexample(key, '%s (%d strings of the boundary alphabet fail this way)' % (items[0][1], len(items)),
+                           {'harness': 'const_to_string' if key.startswith('constant') else 'insert_raw_value[printable]', 'args': {'s': items[0][0]}}, True)
+    run.ob('strings:tree-string:native cross-check, %d strings of <= %d characters over a 9-character boundary alphabet' % (n, n_max), 'counterexample' if bad else 'discharged',
+           '%d values of the known inexpressible class skipped' % known)
+    run.validated += n
+
+
 def specs():
     return [
         dict(fn='lit_render', twin='lit_render_reach', replay=r_lit),
@@ -261,6 +290,10 @@ def run(tier):
         numbers_part(run)
     except Exception as e:  # noqa
         run.error('numbers part crashed: %r' % e)
+    try:
+        native_strings_part(run, tier)
+    except Exception as e:  # noqa
+        run.error('native strings part crashed: %r' % e)
     try:
         dates_part(run)
     except Exception as e:  # noqa
